@@ -7,7 +7,10 @@ alone on the stage's input; `$out` target == returned == prefix output (+ genera
 `$sample` output a sub-multiset of its input of the requested size; scribbling on the returned
 documents must not reach the store; a stage other than `$lookup` / `$out` / `$facet` leaves the
 documents it is HANDED as they were (`$addFields`/`$set` on dotted names, `$unwind` with an index:
-theorems `pure_stage_writes_nothing`, `stage_input_unchanged`).
+theorems `pure_stage_writes_nothing`, `stage_input_unchanged`); on a `tz_aware` twin of the database
+(every third case) the results are a rebuild: no dict or list occurs twice in them, none belongs to
+the caller's pipeline, the values are those of the plain run (`tz_aware_results_separate`,
+`tz_aware_same_state`).
 
 Correspondence (cases of the modelled fragment): every query of the case is also answered by the
 heap model `MongoModel.AggHeap` (driver command `c16`), and the answers — outputs of both runs, the
@@ -117,6 +120,16 @@ FOLLOWED = [
     # 391498a: a double that holds a whole number is an integer for $limit / $skip
     ('391498a', [{'$skip': 1.0}, {'$limit': 2.0}]),
     ('391498a', [{'$limit': 1.5}]),
+    # 1451329: a dotted name through an array sets the field in every item (own copy of the value
+    # each), nested arrays gone through, items that are no documents become documents
+    ('1451329', [{'$addFields': {'arr.w': '$a', 'arr.p.q': 1}}, {'$addFields': {'arr.w.x': 5}}]),
+    ('1451329', [{'$addFields': {'l': [['$a', 1], '$a', 3]}}, {'$set': {'l.w': '$a.y', 'l.z.t': '$k'}}]),
+    ('1451329', [{'$facet': {'x': [{'$addFields': {'arr.w': '$$ROOT'}}, {'$unwind': '$arr'},
+                                   {'$addFields': {'arr.w.k': 9}}],
+                             'y': [{'$set': {'arr.n': {'$literal': {'q': 1}}}}]}}]),
+    # e05c961: the input is one copy per stored document, $lookup rebuilds what it fetches
+    ('e05c961', [{'$lookup': {'from': 'b', 'localField': 'k', 'foreignField': 'k', 'as': 'j'}},
+                 {'$addFields': {'j.w': '$a'}}, {'$out': 'c'}]),
     # 482a7bb: $count over no documents
     ('482a7bb', [{'$match': {'k': 7}}, {'$count': 'n'}]),
     # 2432305: stage documents with no / several operators
@@ -171,6 +184,8 @@ def queries(case):
             qs.append(('sample_out:%d' % i, ('run', 1, st, 'a', p[:i + 1])))
     if L.out_target(p) is not None and deterministic(p[:-1]):
         qs.append(('out_prefix', ('run', 1, st, 'a', p[:-1])))
+    if case.get('tz'):
+        qs.append(('tz', ('tz', st, 'a', p)))
     return qs
 
 
@@ -183,6 +198,8 @@ def py_answer(q):
         return L.py_run(*q[1:])
     if q[0] == 'stagein':
         return L.py_stagein(*q[1:]), None
+    if q[0] == 'tz':
+        return L.py_tz_run(*q[1:]), None
     return L.py_proc(*q[1:]), None
 
 
@@ -357,6 +374,18 @@ class Judge(object):
                          {'input_before': a['input_before'], 'input_after': a['input'],
                           'stage_output': a['res'][0]})
                 verdicts.append('input:%d' % i)
+        # O8 tz_aware: the results are a rebuild
+        if 'tz' in ans:
+            t = ans['tz']
+            self.checks['tz_aware'] += 1
+            if not t['separate']:
+                self.bad(case, 'tz_aware: the returned documents share a dict or list with each '
+                         'other or with the caller\'s pipeline', t['res'])
+            if not t['pipe_same']:
+                self.bad(case, 'tz_aware: the caller\'s pipeline object was modified', None)
+            if deterministic(p) and L.out_target(p) is None and t['res'] != r1:
+                self.bad(case, 'tz_aware: the answer differs from the plain collection\'s '
+                         '(no datetime anywhere)', {'tz_aware': t['res'], 'plain': r1})
         # O6 $sample
         for tag in ans:
             if not tag.startswith('sample_out:'):
@@ -383,7 +412,7 @@ def render(case):
 def gen_case(rng, k):
     model = (k % 2 == 0)
     return {'state': gen_c16.gen_state(rng), 'pipeline': gen_c16.gen_pipeline(rng, model),
-            'stream': 'model' if model else 'rich'}
+            'stream': 'model' if model else 'rich', 'tz': k % 3 == 0}
 
 
 def run_cases(ctx, cases, judge, use_model, stats):
@@ -412,6 +441,8 @@ def run_cases(ctx, cases, judge, use_model, stats):
         kept.append(c)
         if use_model and c.get('stream') == 'model':
             for tag, q in c['qs']:
+                if q[0] == 'tz':
+                    continue
                 where.append((c, tag))
                 lines.append(line_of(q))
     if use_model and lines:
@@ -481,8 +512,8 @@ def run(ctx, proof, driver_ok):
     # known witnesses first (corpus)
     corpus = [{'state': e['witness']['state'], 'pipeline': e['witness']['pipeline'],
                'stream': 'model'} for e in common.load_known('C16') if 'witness' in e]
-    corpus += [{'state': copy.deepcopy(_S), 'pipeline': copy.deepcopy(p), 'stream': 'model'}
-               for _, p in FOLLOWED]
+    corpus += [{'state': copy.deepcopy(_S), 'pipeline': copy.deepcopy(p), 'stream': 'model',
+                'tz': True} for _, p in FOLLOWED]
     for c in run_cases(ctx, corpus, judge, driver_ok, stats):
         if c.get('unmodelled'):
             stats['corpus_unmodelled'] += 1
